@@ -23,9 +23,9 @@ Theorem C12_rerun_refused_on_succeeded_workflow : forall sp s tid reset,
 Proof. exact rerun_refused_on_success_workflow. Qed.
 Print Assumptions C12_rerun_refused_on_succeeded_workflow.
 
-Theorem C12_succeeded_task_not_rerun : forall sp s tid rerun reset,
+Theorem C12_succeeded_task_not_rerun : forall sp s tid reset,
   tid < length (tasks s) -> t_state (get_task s tid) = SUCCESS ->
-  do_start_task sp s tid false rerun reset = (s, Declared).
+  do_start_task sp s tid false true reset = (s, Declared).
 Proof. exact start_existing_refused_on_success_task. Qed.
 Print Assumptions C12_succeeded_task_not_rerun.
 
